@@ -32,8 +32,9 @@ func (p *Parser) findConvergenEntries() ([]*intfEntry, error) {
 		if !ok {
 			continue
 		}
-		if p.srcPath != p.fset.Position(obj.Pos()).Filename {
-			// Skip other than the entry file.
+		if p.fset.File(obj.Pos()) != p.fset.File(p.file.Pos()) {
+			// Skip other than the entry file. The file is identified by its token.File:
+			// file names reported by Position() can be rewritten by //line directives.
 			continue
 		}
 
